@@ -21,6 +21,9 @@
 #include "core/Macros.h"
 #include "core/print_error.h"
 
+// Every conditional whose body is assembled recurses through assemble().
+#define MAX_NESTED_CONDITIONALS 512
+
 int ifdef_ignore(AsmContext *asm_context)
 {
   char token[TOKENLEN];
@@ -141,6 +144,12 @@ int parse_ifdef(AsmContext *asm_context, int ifndef)
 
   asm_context->ifdef_count++;
 
+  if (asm_context->ifdef_count > MAX_NESTED_CONDITIONALS)
+  {
+    print_error(asm_context, "Conditionals are nested too deeply");
+    return -1;
+  }
+
   asm_context->parsing_ifdef = 1;
   token_type = tokens_get(asm_context, token, TOKENLEN);
   asm_context->parsing_ifdef = 0;
@@ -173,6 +182,12 @@ int parse_if(AsmContext *asm_context)
   int num;
 
   asm_context->ifdef_count++;
+
+  if (asm_context->ifdef_count > MAX_NESTED_CONDITIONALS)
+  {
+    print_error(asm_context, "Conditionals are nested too deeply");
+    return -1;
+  }
 
   asm_context->parsing_ifdef = 1;
   num = eval_ifdef_expression(asm_context);
